@@ -1,7 +1,19 @@
 import XpmVerif.Model.IdentImpl
-/-! C14 — submitted configurations are frozen together with their identity. -/
+import XpmVerif.Proofs.SealedIdent
+import XpmVerif.Proofs.SealedCache
+import XpmVerif.Proofs.SealedExample
+/-! C14 — submitted configurations are frozen together with their identity.
+
+    Vocabulary (namespace `XpmVerif.Ident.Sealing`, defined in `Proofs/Sealed.lean`, `Proofs/SealedInv.lean`):
+    * `Edge g n m` — inductive: `m` occurs in some argument value of `n` at any depth (all arguments, also
+      ignored ones), or is one of its `preTasks` / `initTasks`, or is its `task` (≠ `n`); `Reach` is the
+      reflexive-transitive closure.
+    * `WF g` — every edge ends at an existing node (`m < g.size`).
+    * `SealedClosed g` — the successors of a sealed node are sealed; `GInv g := WF g ∧ SealedClosed g`.
+    * `ValidOp size o` — an assigned value only references existing nodes, an added pre-task exists.
+    * `run hc fl s os` — the state after the operations `os`. -/
 namespace XpmVerif.C14
-open XpmVerif.Ident
+open XpmVerif.Ident XpmVerif.Ident.Sealing
 
 /-- **every attempt is rejected**: on a sealed node, assigning a parameter, changing the meta flag or
     adding a pre-task returns the sealed error and leaves the whole state (graph and caches) unchanged. -/
@@ -10,5 +22,123 @@ theorem sealed_rejects {D : Type} (hc : HC D) (fl : Bool) (s : St D) (n : Nat) (
     (∀ b, step hc fl s (.setMeta n b) = (s, .sealedError)) ∧
     (∀ p, step hc fl s (.addPretask n p) = (s, .sealedError)) := by
   refine ⟨?_, ?_, ?_⟩ <;> intros <;> simp [step, h]
+
+/-- **sealing reaches every reachable configuration** ("…or on any configuration reachable from it"):
+    in a well-formed graph whose sealed part is closed, after `sealFrom g n` every node reachable from `n`
+    (through values at any depth, pre-tasks, init-tasks, producing tasks, cycles) is sealed, previously
+    sealed nodes stay sealed, and the result is again well-formed and closed. -/
+theorem seal_reaches_all (g : Graph) (n : Nat) (hwf : WF g) (hcl : SealedClosed g) (hn : n < g.size) :
+    (∀ m, Reach g n m → ((sealFrom g n).node m).sealed = true) ∧
+    (∀ m, (g.node m).sealed = true → ((sealFrom g n).node m).sealed = true) ∧
+    SealedClosed (sealFrom g n) ∧ WF (sealFrom g n) :=
+  ⟨fun _ h => sealFrom_reaches hwf hcl hn h, fun _ h => sealFrom_keeps n h,
+   sealedClosed_sealFrom hwf hcl n, WF_sealFrom hwf n⟩
+
+/-- **the invariant**: `WF ∧ SealedClosed` is preserved by every operation (mutators are rejected on sealed
+    nodes and only change an unsealed node's outgoing edges; requests do not change the graph; sealing by
+    `seal_reaches_all`), hence by every sequence of valid operations — in particular along every history
+    that starts from a well-formed graph without sealed nodes. -/
+theorem sealed_closed_invariant {D : Type} (hc : HC D) (fl : Bool) (s : St D) (hinv : GInv s.g) :
+    (∀ o : Op, ValidOp s.g.size o → GInv (step hc fl s o).1.g) ∧
+    (∀ os : List Op, (∀ o ∈ os, ValidOp s.g.size o) → GInv (run hc fl s os).g ∧ (run hc fl s os).g.size = s.g.size) :=
+  ⟨fun o hv => step_inv hc fl s o hinv hv,
+   fun os hv => ⟨run_inv hc fl os s hinv hv, (run_frame hc fl os s).1⟩⟩
+
+/-- a well-formed graph in which nothing is sealed yet satisfies the invariant (start of every history). -/
+theorem unsealed_invariant (g : Graph) (hwf : WF g) (h : ∀ n, (g.node n).sealed = false) : GInv g :=
+  ⟨hwf, sealedClosed_of_unsealed h⟩
+
+/-- **frozen content**: whatever operations are attempted (valid or not), a node that is sealed — and every
+    node reachable from it — keeps exactly its content (arguments, meta flag, pre-tasks, init-tasks, task,
+    sealed flag), and the set of nodes reachable from it does not change. -/
+theorem sealed_frozen {D : Type} (hc : HC D) (fl : Bool) (s : St D) (hcl : SealedClosed s.g) (n : Nat)
+    (hn : (s.g.node n).sealed = true) (os : List Op) :
+    (∀ m, Reach s.g n m → (run hc fl s os).g.node m = s.g.node m) ∧
+    (∀ m, Reach (run hc fl s os).g n m ↔ Reach s.g n m) :=
+  ⟨fun m hm => (run_frame hc fl os s).2 m (reach_sealed hcl hn hm),
+   fun _ => frame_reach hcl (run_frame hc fl os s) hn⟩
+
+/-- **rejected on every reachable configuration, for ever**: once `n` is sealed (invariant holding), after
+    any further operations every mutation attempt on any configuration reachable from `n` returns the
+    sealed error and leaves the state unchanged. -/
+theorem reachable_rejects {D : Type} (hc : HC D) (fl : Bool) (s : St D) (hcl : SealedClosed s.g) (n m : Nat)
+    (hn : (s.g.node n).sealed = true) (hm : Reach s.g n m) (os : List Op) :
+    let s' := run hc fl s os
+    (∀ name v, step hc fl s' (.set m name v) = (s', .sealedError)) ∧
+    (∀ b, step hc fl s' (.setMeta m b) = (s', .sealedError)) ∧
+    (∀ p, step hc fl s' (.addPretask m p) = (s', .sealedError)) := by
+  intro s'
+  apply sealed_rejects
+  have hms := reach_sealed hcl hn hm
+  show ((run hc fl s os).g.node m).sealed = true
+  rw [(run_frame hc fl os s).2 m hms]; exact hms
+
+/-- **identifier (hence job directory) stays what it was**: if `n` is sealed, every operation — and every
+    sequence of operations — leaves the raw and the full identifier of `n` (specification functions
+    `rawId` / `fullId` of the current graph; the job directory is `<workdir>/jobs/<task id>/<fullId>`)
+    unchanged, and `n` stays sealed. Holds for every hash `hc`. -/
+theorem sealed_ident_stable {D : Type} (hc : HC D) (fl : Bool) (s : St D) (hcl : SealedClosed s.g) (n : Nat)
+    (hn : (s.g.node n).sealed = true) :
+    (∀ o : Op, rawId hc (step hc fl s o).1.g n = rawId hc s.g n ∧ fullId hc (step hc fl s o).1.g n = fullId hc s.g n
+        ∧ ((step hc fl s o).1.g.node n).sealed = true) ∧
+    (∀ os : List Op, rawId hc (run hc fl s os).g n = rawId hc s.g n ∧ fullId hc (run hc fl s os).g n = fullId hc s.g n
+        ∧ ((run hc fl s os).g.node n).sealed = true) :=
+  ⟨fun o => frame_ident hc hcl (step_frame hc fl s o) hn, fun os => frame_ident hc hcl (run_frame hc fl os s) hn⟩
+
+/-- the same along a whole history: start from a well-formed graph with nothing sealed, run valid operations
+    `os₁` (constructing, sealing, requesting, mutating); whatever is sealed then keeps its identifiers through
+    any continuation `os₂`. -/
+theorem history_ident_stable {D : Type} (hc : HC D) (fl : Bool) (s₀ : St D) (hwf : WF s₀.g)
+    (h0 : ∀ n, (s₀.g.node n).sealed = false) (os₁ os₂ : List Op) (hv : ∀ o ∈ os₁, ValidOp s₀.g.size o) (n : Nat)
+    (hn : ((run hc fl s₀ os₁).g.node n).sealed = true) :
+    let s₁ := run hc fl s₀ os₁
+    let s₂ := run hc fl s₁ os₂
+    rawId hc s₂.g n = rawId hc s₁.g n ∧ fullId hc s₂.g n = fullId hc s₁.g n ∧ (s₂.g.node n).sealed = true := by
+  intro s₁ s₂
+  have hinv := run_inv hc fl os₁ s₀ (unsealed_invariant _ hwf h0) hv
+  exact frame_ident hc hinv.2 (run_frame hc fl os₂ s₁) hn
+
+/-- **the identifier the implementation returns stays what it was** (cache side, independent of the hash and
+    of the loop flag): once the identifiers of a sealed `n` have been requested (as `submit` does), every
+    later request, after any operations, returns the same full and raw identifiers and changes nothing. -/
+theorem sealed_returned_ident_stable {D : Type} (hc : HC D) (fl : Bool) (s : St D) (n : Nat)
+    (hn : (s.g.node n).sealed = true) (os : List Op) :
+    let r := reqFull hc fl s n
+    let s' := run hc fl r.1 os
+    reqFull hc fl s' n = (s', r.2) ∧ (reqRaw hc fl s' n).1 = s' ∧ (reqRaw hc fl s' n).2 = (reqRaw hc fl r.1 n).2 := by
+  intro r s'
+  obtain ⟨hfull, rr, f, hraw⟩ := reqFull_cached hc fl s n hn
+  have hs1 : (r.1.g.node n).sealed = true := by show ((reqFull hc fl s n).1.g.node n).sealed = true; rw [reqFull_g]; exact hn
+  have hs' : (s'.g.node n).sealed = true := by
+    show ((run hc fl r.1 os).g.node n).sealed = true
+    rw [(run_frame hc fl os r.1).2 n hs1]; exact hs1
+  have hle := run_cacheLe hc fl os r.1
+  have hraw' := hle.1 n _ hraw
+  have hfull' := hle.2 n _ hfull
+  refine ⟨reqFull_hit hc fl s' n hs' hraw' hfull', ?_, ?_⟩
+  · rw [reqRaw_hit hc fl s' n hs' hraw']
+  · rw [reqRaw_hit hc fl s' n hs' hraw', reqRaw_hit hc fl r.1 n hs1 hraw]
+
+/-! ### the hypotheses are satisfiable (`sealDemo`: a graph with a list value, a pre-task and a task cycle) -/
+
+example : WF sealDemo ∧ SealedClosed sealDemo ∧ (∀ n, (sealDemo.node n).sealed = false) := by
+  refine ⟨WF_of_wfB (by decide), SealedClosed_of_closedB (by decide), ?_⟩
+  intro n
+  by_cases h : n < sealDemo.size
+  · have : n = 0 ∨ n = 1 ∨ n = 2 ∨ n = 3 := by simp [sealDemo, Graph.size] at h; omega
+    rcases this with rfl | rfl | rfl | rfl <;> rfl
+  · rw [node_of_size_le (Nat.le_of_not_lt h)]
+
+/-- sealing node 0 seals 0, 1, 2 and leaves 3 open; the result satisfies the invariant. -/
+example : (List.range 4).map (fun m => ((sealFrom sealDemo 0).node m).sealed) = [true, true, true, false] := by decide
+example : GInv (sealFrom sealDemo 0) := ⟨WF_of_wfB (by decide), SealedClosed_of_closedB (by decide)⟩
+example : Reach sealDemo 0 2 ∧ Reach sealDemo 0 1 ∧ Reach sealDemo 1 0 :=
+  ⟨.step .refl (.pre (by decide)), .step .refl (.arg (a := { name := [120], value := .list [.ref 1] }) (List.Mem.head _) (by decide)),
+   .step .refl (.task (t := 0) (by decide) (by decide))⟩
+example : ValidOp sealDemo.size (.set 3 [122] (.list [.ref 0, .ref 1])) ∧ ValidOp sealDemo.size (.addPretask 3 1) := by
+  constructor
+  · intro m hm; have : m = 0 ∨ m = 1 := by simpa [valRefs, valsRefs] using hm
+    rcases this with rfl | rfl <;> decide
+  · show 1 < 4; decide
 
 end XpmVerif.C14
